@@ -48,7 +48,13 @@ def run(ctx):
     for d in g2.lines:
         k = json.dumps([s[0] for s in d["steps"]])
         if k not in seen:
-            seen.add(k); scns.append(d)
+            seen.add(k); d["crash"] = []; scns.append(d)
+            # the same script with sessions that end by unwinding (handler panics): every session / the first one only
+            nc = sum(1 for s in d["steps"] if s[0] == "C")
+            for cr in ([list(range(nc))] if nc == 1 else [list(range(nc)), [0]]) if nc else []:
+                d2 = json.loads(json.dumps(d)); d2["crash"] = cr; scns.append(d2)
+    for d in scns:
+        d.setdefault("crash", [])
     for n, d in enumerate(scns):
         d["id"] = n
     inp = ctx.write_ndjson("scenarios.ndjson", scns)
